@@ -46,5 +46,9 @@
  */
 int snoopy_output_stdoutoutput (char const * const logMessage, __attribute__((unused)) char const * const arg)
 {
-    return fprintf(stdout, "%s\n", logMessage);
+    int retVal;
+
+    retVal = fprintf(stdout, "%s\n", logMessage);
+    fflush(stdout); // Hand the record over now - a stdio buffer does not survive the exec() that follows
+    return retVal;
 }
